@@ -56,6 +56,14 @@ __LIST_LIKE = (frozenset, set, list, tuple, deque)
 """The types themselves: an application class that is merely NAMED 'list' or 'tuple' is an object like any other."""
 
 
+def is_type(variable_type: type, types_: tuple) -> bool:
+    """Check that the type IS one of the types (`in` compares with ==, which a metaclass can define)."""
+    for type_ in types_:
+        if variable_type is type_:
+            return True
+    return False
+
+
 def is_dict_like(variable_type: type) -> bool:
     """Check for dict and the classes derived from it (OrderedDict, defaultdict, Counter, the application's own)."""
     return issubclass(variable_type, dict)
@@ -254,7 +262,7 @@ def variable_to_string(variable_type, var_value):
     :param var_value: the variable value
     :return: a string of the value
     """
-    if variable_type in __ITER_LIKE:
+    if is_type(variable_type, __ITER_LIKE):
         # if interator like then make a custom string - we do not want to mess with iterators
         return 'Iterator of type: %s' % variable_type
     elif is_dict_like(variable_type) or is_list_like(variable_type):
@@ -337,7 +345,7 @@ def process_child_nodes(
     """
     variable_type = type(var_value)
     # if the type is a type we do not want children from - return empty
-    if variable_type in __NO_CHILD:
+    if is_type(variable_type, __NO_CHILD):
         return []
 
     # if the depth is more than we are configured - return empty
